@@ -116,7 +116,12 @@ func c04canonical(rng *core.Rng, n int) []c04session {
 	field := func(b []byte) []byte { return append(be(uint32(len(b))), b...) }
 	arow := append(append([]byte{0, 4}, field([]byte("t"))...), append(append(field(lyingArray), field(lyingRanges)...), field(be(3000000))...)...)
 	abin := append(append(append([]byte{}, c14header...), arow...), 0xff, 0xff)
+	// a Parse whose prespecified type reads as text, then a message of a type that needs a body but declares
+	// none (length word 4): nothing of the earlier message may be taken for its body
+	stale := pg.Parse("", "select 1", []uint32{0x45564c00, 0x53454c00})
 	all := []c04session{
+		{Name: "header-only-query-after-unread-tail", Msgs: cat([][]byte{start, stale, pg.Raw('Q', nil), pg.Sync(), pg.Query("select 1"), pg.Terminate()})},
+		{Name: "header-only-parse-bind-after-unread-tail", Msgs: cat([][]byte{start, stale, pg.Raw('P', nil), pg.Sync(), stale, pg.Raw('B', nil), pg.Raw('E', nil), pg.Sync(), pg.Terminate()})},
 		{Name: "copy-binary-lying-containers", Msgs: cat([][]byte{start, pg.Query("copya in"), pg.CopyData(abin), pg.CopyDone(), pg.Query("select 1"), pg.Terminate()})},
 		{Name: "bind-lying-containers", Msgs: cat([][]byte{start, pg.Parse("s", "select $1 $2", nil), pg.Bind("p", "s", []int16{1}, [][]byte{lyingArray, lyingRanges}, nil), pg.Execute("p", 0), pg.Sync(), pg.Terminate()})},
 		{Name: "copy-binary-declared-field-of-200MB", Msgs: cat([][]byte{start, pg.Query("copyb in"), pg.CopyData(append(append(append([]byte{}, c14header...), 0, 2), be(200000000)...)), pg.CopyData([]byte("only a few bytes of it ever arrive")), pg.CopyDone(), pg.Query("select 1"), pg.Terminate()})},
@@ -175,9 +180,9 @@ func (ch c04) Run(c *core.Ctx) {
 	envTLS := hs.Start(hs.Parse, wire.MessageBufferSize(c04L), wire.TLSConfig(hs.ServerTLS()))
 	envs := c04envs{plain: hs.Start(hs.Parse, wire.MessageBufferSize(c04L)), auth: hs.Start(hs.Parse, wire.MessageBufferSize(c04L), wire.SessionAuthStrategy(wire.ClearTextPassword(c04validator)))}
 	nb := ch.Batches(c.Tier)
-	ncanon, nmut := 21, 2500
+	ncanon, nmut := 23, 2500
 	if c.Tier == "thorough" {
-		ncanon, nmut = 40, 400000
+		ncanon, nmut = 42, 400000
 	}
 	canon := c04canonical(core.NewRng(c.Seed, "C04canon", 0, 0), ncanon)
 	cases := 0
